@@ -33,3 +33,8 @@ Print Assumptions C11_fresh_retort_satisfies_invariant.
 Theorem C11_cache_is_the_modelled_one : cached_call_impl = reviewed_cached_call.
 Proof. exact cache_is_the_modelled_one. Qed.
 Print Assumptions C11_cache_is_the_modelled_one.
+
+(* replace() / extend(): the code that makes a clone is the reviewed one - a copy whose caches are re-created empty *)
+Theorem C11_clone_starts_with_empty_caches : clone_code = reviewed_clone_code.
+Proof. exact clone_code_is_the_reviewed_one. Qed.
+Print Assumptions C11_clone_starts_with_empty_caches.
